@@ -696,7 +696,10 @@ impl<'a> G<'a> {
             let clash = vs.iter().any(|w| {
                 w == &v
                     || match (w, &v) {
-                        (GTy::Tup(a, _), GTy::Tup(b, _)) => a == b && !self.r.chance(1, 6),
+                        // gate (finding N16): same-named variants of the same size whose labels
+                        // differ — a positional pattern is taken to cover the labelled twin. Twins
+                        // are kept only when their sizes differ.
+                        (GTy::Tup(a, fa), GTy::Tup(b, fb)) => a == b && (fa.len() == fb.len() || !self.r.chance(1, 6)),
                         _ => false,
                     }
             });
